@@ -177,8 +177,11 @@ class MarginRule(cssrule.CSSRule):
                                                     prods)
 
         if ok:
-            # TODO: use seq for serializing instead of fixed stuff?
-            self._setSeq(seq)
+            # parse the declarations into a new style first
+            newStyle = CSSStyleDeclaration(parentRule=self)
+            if 'styletokens' in store:
+                # may raise:
+                newStyle.cssText = store['styletokens']
 
             if 'margin' in store:
                 # may raise:
@@ -188,12 +191,10 @@ class MarginRule(cssrule.CSSRule):
                                 self.margin,
                                 error=xml.dom.InvalidModificationErr)
 
-            # new empty style
-            self.style = CSSStyleDeclaration(parentRule=self)
-
-            if 'styletokens' in store:
-                # may raise:
-                self.style.cssText = store['styletokens']
+            # commit: nothing below raises
+            # TODO: use seq for serializing instead of fixed stuff?
+            self._setSeq(seq)
+            self.style = newStyle
 
     cssText = property(fget=_getCssText, fset=_setCssText,
                        doc="(DOM) The parsable textual representation.")
